@@ -253,6 +253,8 @@ class Prover:
         self.s = z3.Solver()
         self.s.set('timeout', timeout_ms)
         self.s.set('random_seed', seed & 0x7fffffff)
+        self.timeout_ms = timeout_ms; self.seed = seed
+        self.retried = 0
         try:
             z3.set_param('smt.random_seed', seed & 0x7fffffff); z3.set_param('sat.random_seed', seed & 0x7fffffff)
         except Exception:
@@ -291,6 +293,20 @@ class Prover:
                 self.s.add(*extra)
             r = self.s.check()
             m = self.s.model() if r == z3.sat else None
+            if r == z3.unknown and self.retried < 6:
+                # a time-out is not an answer: ask again from scratch (no learnt state, another seed, two then four times the time)
+                # before giving up; at most three queries per prover get this treatment
+                for k, delta in enumerate((7919, 104729)):
+                    s2 = z3.Solver()
+                    s2.set('timeout', self.timeout_ms * (2 if k == 0 else 4))
+                    s2.set('random_seed', (self.seed + delta) & 0x7fffffff)
+                    s2.add(self.s.assertions())
+                    self.retried += 1
+                    r2 = s2.check()
+                    if r2 != z3.unknown:
+                        r = r2
+                        m = s2.model() if r2 == z3.sat else None
+                        break
             if r == z3.unsat and self.cross_every and extra:
                 self._nproved += 1
                 if self._nproved % self.cross_every == 1 or self.cross_every == 1:
